@@ -35,6 +35,7 @@ import ttconv.vtt.style as style
 from ttconv.filters.isd.default_style_properties import DefaultStylePropertyValuesISDFilter
 from ttconv.filters.isd.merge_paragraphs import ParagraphsMergingISDFilter
 from ttconv.filters.isd.merge_regions import RegionsMergingISDFilter
+from ttconv.filters.isd.remove_invisible_content import InvisibleContentISDFilter
 from ttconv.filters.isd.supported_style_properties import SupportedStylePropertiesISDFilter
 from ttconv.isd import ISD
 from ttconv.vtt.cue import VttCue
@@ -58,7 +59,7 @@ class VttContext:
     self._background_colors_used: Dict[str, str] = {}
     self._config = config
 
-    self._filters = []
+    self._filters = [InvisibleContentISDFilter()]
 
     if not self._config.line_position:
       self._filters.append(RegionsMergingISDFilter())
